@@ -64,6 +64,12 @@ type Config struct {
 	Regime         Regime
 	Start          time.Time       // commit instant of the first upload (plus its Gap); zero = DefaultStart
 	FirstChangeset osm.ChangesetID // changeset of upload 0; upload k uses FirstChangeset+k; zero = 100
+
+	// Version numbering of every element: FirstVersion, FirstVersion+VersionStep, ...
+	// (zero values mean 1). OSM versions need not start at 1 or be sequential
+	// (redactions), and the library must not assume they do.
+	FirstVersion int
+	VersionStep  int
 }
 
 // Change is one element version written by an upload.
@@ -134,6 +140,12 @@ func New(cfg Config) *World {
 	if cfg.FirstChangeset == 0 {
 		cfg.FirstChangeset = 100
 	}
+	if cfg.FirstVersion == 0 {
+		cfg.FirstVersion = 1
+	}
+	if cfg.VersionStep == 0 {
+		cfg.VersionStep = 1
+	}
 	return &World{cfg: cfg}
 }
 
@@ -198,7 +210,7 @@ func (w *World) Apply(u Upload) {
 		e := w.elems[ei]
 		v := Version{
 			ID:        c.ID,
-			Version:   len(e.vers) + 1,
+			Version:   w.cfg.FirstVersion + len(e.vers)*w.cfg.VersionStep,
 			Changeset: rec.changeset,
 			Visible:   !c.Delete,
 			Commit:    t,
